@@ -20,36 +20,44 @@ TECHNIQUE = ("Coq proof (index range construction + prolly range scan = declarat
              "merge join and lookup join over key-sorted inputs = nested-loop join; COUNT fast path = length) + in-Coq correspondence on explicit "
              "ranges driven through the real range builder and map iterator + differential run of generated SELECTs against go-mysql-server's "
              "in-memory engine, with the declarative answer recomputed in Coq from the data")
-LEVEL_TEXT = ("Proof (P): for every key list sorted in tuple order and every index range (per column: lower/upper cut among BelowNull, AboveNull, "
-              "Below k, Above k, AboveAll) the model of pruneEmptyRanges + prollyRangesFromSqlRanges + Map.IterRange returns exactly the keys lying "
-              "between the cuts, in order, and a pruned range contains no key (ranges_sound_complete; the start/stop searches are well defined because "
-              "aboveStart/belowStop are monotone on sorted keys: above_start_monotone, below_stop_antitone); for all key-sorted inputs with duplicate "
-              "and NULL keys the lookup join equals the nested-loop join, inner and left outer (lookup_join_spec), the merge join is a permutation "
-              "of it for inner joins (merge_join_inner_spec) and for left joins with at most one NULL left key (merge_join_left_spec_partial; the "
-              "unrestricted statement is refuted by merge_join_left_refuted, a defect of the real iterator reproduced by the model); the COUNT "
-              "fast path equals the declarative count on keyed tables (count_fast_path_spec; refuted for keyless tables, "
-              "count_fast_path_keyless_refuted). Whole queries (planning, expression evaluation, ORDER BY, AS OF) are covered differentially: every "
-              "generated SELECT must return the rows of the reference engine and the rows computed declaratively in Coq from the data.")
-LEVEL_NOTE = ("Partial: the theorems cover the key-value executors and range construction over INT columns; the SQL analyzer, type coercion, other "
-              "column types and collations rest on the differential part. Trusted: Coq kernel, Go harness (it also runs the reference engine and "
-              "reports agreement as a boolean), Python glue. The merge join model is written by stages (compare / fill buffer / match group, with "
-              "the LEFT JOIN re-entry that refills the lookahead) rather than as the iterator's explicit state machine; its output is compared with "
-              "dolt's rows on every generated join. sort.Search is modelled as 'first index where the predicate holds', justified by the "
-              "monotonicity theorems. Two open findings (known_findings.json): LEFT merge join loses right rows after a group of NULL left keys; "
-              "COUNT(col) on a keyless table tests the wrong tuple field.")
-THEOREMS = ["ranges_sound_complete", "above_start_monotone", "below_stop_antitone", "merge_join_spec", "merge_join_inner_spec",
+LEVEL_TEXT = ("Proof (P): for every key width, nullability vector, integer encodings, key list sorted in tuple order and every index range (per "
+              "column: lower/upper cut among BelowNull, AboveNull, Below k, Above k, AboveAll; any number of columns, prefix ranges included) the model of "
+              "pruneEmptyRanges + prollyRangesFromSqlRanges + Map.IterRange (KeyRangeLookup/IncrementTuple with the overflow guard of every signed width, "
+              "start/stop searches, Matches post-filter) returns exactly the keys lying between the cuts, in order, and a pruned range contains no key "
+              "(ranges_sound_complete; above_start_monotone, below_stop_antitone justify the binary searches; range_oracle_on_model: the oracle accepts the "
+              "model's own range observation). The merge-join iterator is modelled as the explicit state machine of merge_join.go (leftKey, rightKey, "
+              "nextRightKey, lookaheadBuf, matchPos, matchedLeft, exhaustLeft, the labels compare/match) and proved, for every left input and key-sorted "
+              "right input, to terminate with exactly the row SEQUENCE of the staged formulation (merge_join_sm_refines); hence it is a permutation of the "
+              "nested-loop join for inner joins (merge_join_sm_inner_spec) and for left joins with at most one NULL left key "
+              "(merge_join_sm_left_spec_partial); the unrestricted left-join statement is refuted on the state machine itself "
+              "(merge_join_sm_left_refuted, reproduced on dolt). The lookup join equals the nested-loop join (lookup_join_spec); the COUNT fast path equals "
+              "the declarative count on keyed tables (count_fast_path_spec; refuted for keyless tables). Whole queries (planning, expression evaluation, "
+              "DISTINCT, GROUP BY, LIMIT, subqueries, ORDER BY, AS OF tag/branch/HEAD~n) are covered differentially: every generated SELECT must return the "
+              "rows of the reference engine and the rows computed declaratively in Coq from the data; merge-join output is compared with the state machine "
+              "in dolt's row ORDER.")
+LEVEL_NOTE = ("Partial: the theorems cover the key-value executors and range construction over signed integer columns; the SQL analyzer, type coercion, "
+              "other column types and collations rest on the differential part. Trusted: Coq kernel, Go harness (it also runs the reference engine and "
+              "reports agreement as a boolean, and reads the join sides' indexes off EXPLAIN), Python glue. sort.Search is modelled as 'first index where "
+              "the predicate holds', justified by the monotonicity theorems; fillMatchBuf is one step of the state machine. Open findings "
+              "(known_findings.json): LEFT merge join loses right rows after a group of NULL left keys; COUNT(col) on a keyless table tests the wrong tuple "
+              "field; NOT IN (subquery) planned as LeftOuterMergeJoin + IS NULL filter ignores NULL semantics (shared go-mysql-server analyzer: both engines "
+              "agree, the declarative answer disagrees). No oracle_on_model theorem for the query part: the model reproduces the first two defects.")
+THEOREMS = ["ranges_sound_complete", "above_start_monotone", "below_stop_antitone", "range_oracle_on_model", "merge_join_sm_refines",
+            "merge_join_sm_inner_spec", "merge_join_sm_left_spec_partial", "merge_join_spec", "merge_join_inner_spec",
             "merge_join_left_spec_partial", "lookup_join_spec", "count_fast_path_spec"]
-REFUTED = ["merge_join_left_refuted", "merge_join_sm_left_refuted", "count_fast_path_keyless_refuted"]
-RULE = ("tables t(id pk, a, b, c; indexes (a), (a,b)), u((x,y) pk, z; index (z)), keyless k(a,b; index (a)) with 0-40 rows (joins: <= 12) of small "
+REFUTED = ["merge_join_sm_left_refuted", "merge_join_left_refuted", "count_fast_path_keyless_refuted"]
+RULE = ("tables t(id pk, a, b, c; indexes (a), (a,b)), u((x,y) pk, z; index (z)), keyless k(a,b; index (a)), w(p int, q bigint, s smallint, v; pk (p,q,s); "
+        "index (v,q)) with 0-40 rows (joins: <= 12) of small "
         "integers, int32 extremes and NULLs, duplicates in indexed columns; optional commit followed by deletes/updates/inserts; explicit ranges over "
         "every index (1-2 columns, all cut kinds, empty and inverted ranges included) and SELECTs: filters from < <= = >= > <> BETWEEN IN IS [NOT] NULL "
-        "AND OR NOT, ORDER BY pk, AS OF HEAD, COUNT(*)/COUNT(col), inner/left joins with MERGE_JOIN / LOOKUP_JOIN / HASH_JOIN hints; non-trivial = "
+        "AND OR NOT, [NOT] IN (subquery), projections with DISTINCT, LIMIT, GROUP BY, ORDER BY pk, AS OF tag/branch/HEAD/HEAD~1, COUNT(*)/COUNT(col), inner/left joins with MERGE_JOIN / LOOKUP_JOIN / HASH_JOIN hints; non-trivial = "
         "some range visits a key or some query returns a row; distinct by case content")
 ASSUMPTIONS = ["integer (INT) columns only; one or two tables per query; the model evaluates a filter through an index only when it is a conjunction "
                "of one-column atoms matching the index prefix, otherwise model = declarative filter"]
 REQUIRED_TAGS = ["range-pruned", "range-contig", "range-noncontig", "range-all-eq", "range-null-cut", "range-int32-max", "range-visits", "range-2col",
                  "q-merge", "q-lookup", "q-left", "q-asof", "q-count", "q-ita", "q-null-join-keys", "q-dup-both-sides", "q-ordered", "q-via-index", "q-keyless", "q-merge-ordered", "q-group-by", "q-distinct", "q-limit", "q-projection", "q-in-subquery",
-                 "q-not-in-subquery", "q-asof-tag", "q-asof-branch", "q-asof-head", "q-asof-head-n"]
+                 "q-not-in-subquery", "q-asof-tag", "q-asof-branch", "q-asof-head", "q-asof-head-n", "range-3col", "range-mixed-widths",
+                 "range-prefix-of-composite", "range-int64-or-int16-max"]
 
 VALS = [-1, 0, 1, 2, 3]
 EXT = [2147483647, -2147483648, 2147483646]
@@ -57,10 +65,15 @@ EXT = [2147483647, -2147483648, 2147483646]
 T_COLS = ["id", "a", "b", "c"]
 U_COLS = ["x", "y", "z"]
 K_COLS = ["a", "b"]
-TABLES = {"t": (0, T_COLS), "u": (1, U_COLS), "k": (2, K_COLS)}
+W_COLS = ["p", "q", "s", "v"]          # int, bigint, smallint, int; primary key (p, q, s); index iv (v, q)
+TABLES = {"t": (0, T_COLS), "u": (1, U_COLS), "k": (2, K_COLS), "w": (3, W_COLS)}
+I64 = [9223372036854775807, -9223372036854775808, 9223372036854775806]
+I16 = [32767, -32768, 32766]
+W_EXT = {0: EXT, 1: I64, 2: I16, 3: EXT}
 # index -> (table, key column positions in the table row: indexed columns then pk, number of indexed columns)
 INDEXES = {("t", "PRIMARY"): ([0], 1), ("t", "ia"): ([1, 0], 1), ("t", "iab"): ([1, 2, 0], 2),
-           ("u", "PRIMARY"): ([0, 1], 2), ("u", "iz"): ([2, 0, 1], 1)}
+           ("u", "PRIMARY"): ([0, 1], 2), ("u", "iz"): ([2, 0, 1], 1),
+           ("w", "PRIMARY"): ([0, 1, 2], 3), ("w", "iv"): ([3, 1, 0, 2], 2)}
 
 
 def val(rng, null_p=0.2, ext_p=0.04, vals=VALS):
@@ -90,7 +103,11 @@ def gen_tables(rng, join):
     u = [[x, y, val(rng, vals=vals)] for x, y in sorted(keys)]
     nk = rng.choice([0, 0, 2, 5, 9])
     k = [[val(rng, vals=[0, 1]), val(rng, vals=[0, 1])] for _ in range(nk)]
-    return {"t": t, "u": u, "k": k}
+    wk = set()
+    while len(wk) < (0 if join else rng.choice([0, 3, 8, 14])):
+        wk.add((rng.choice([0, 1, 2]), rng.choice([0, 1, 2] + (I64 if rng.random() < 0.3 else [])), rng.choice([0, 1] + (I16 if rng.random() < 0.3 else []))))
+    w = [[p_, q_, s_, val(rng, vals=[0, 1, 2])] for p_, q_, s_ in sorted(wk)]
+    return {"t": t, "u": u, "k": k, "w": w}
 
 
 def ins_sql(name, rows):
@@ -101,9 +118,10 @@ def ins_sql(name, rows):
 def setup_sql(tb):
     s = ["create table t (id int primary key, a int, b int, c int, key ia (a), key iab (a, b))",
          "create table u (x int, y int, z int, primary key (x, y), key iz (z))",
-         "create table k (a int, b int, key ka (a))"]
-    for n in ("t", "u", "k"):
-        s += ins_sql(n, tb[n])
+         "create table k (a int, b int, key ka (a))",
+         "create table w (p int, q bigint, s smallint, v int, primary key (p, q, s), key iv (v, q))"]
+    for n in ("t", "u", "k", "w"):
+        s += ins_sql(n, tb.get(n, []))
     return s
 
 
@@ -288,7 +306,15 @@ def gen_range(rng, tb):
     cuts = []
     for j in range(n):
         dv = [r[pos[j]] for r in tb[tname] if r[pos[j]] is not None]
-        cuts.append(gen_col(rng, dv))
+        col = gen_col(rng, dv)
+        if tname == "w":
+            # extremes of the column's own type (the int32 ones would be out of range for smallint)
+            ext = W_EXT[pos[j]]
+            col = [[c[0], (rng.choice(ext) if (len(c) > 1 and c[1] in EXT) else c[1])] if len(c) > 1 else c for c in col]
+            if rng.random() < 0.15:
+                k_ = rng.choice(ext)
+                col = [["b", k_], ["a", k_]]
+        cuts.append(col)
     return {"t": tname, "ix": ix, "cuts": cuts}
 
 
@@ -404,7 +430,8 @@ def gen_one(rng, join):
 
 def fixed_cases():
     tb = {"t": [[1, 1, 1, 0], [2, None, 2, 0], [3, 2, None, 1], [4, 2, 5, 1], [5, 2, 5, None], [6, 2147483647, 0, 2], [7, None, None, None]],
-          "u": [[1, 1, 1], [2, 1, None], [2, 2, 2], [2, 3, 2], [4, 0, None]], "k": [[0, 0], [0, 0], [None, 1]]}
+          "u": [[1, 1, 1], [2, 1, None], [2, 2, 2], [2, 3, 2], [4, 0, None]], "k": [[0, 0], [0, 0], [None, 1]],
+          "w": [[0, 0, 0, 1], [0, 0, 32767, None], [0, 9223372036854775807, 0, 2], [0, 9223372036854775807, 1, 2], [1, -9223372036854775808, -32768, 0], [1, 5, 5, 2]]}
     later = ["delete from t where id = 1"]
     cur = copy.deepcopy(tb)
     cur["t"] = cur["t"][1:]
@@ -417,7 +444,13 @@ def fixed_cases():
               {"t": "t", "ix": "iab", "cuts": [[["b", 2], ["a", 2]], [["a", 3], ["aa"]]]},
               {"t": "t", "ix": "iab", "cuts": [[["a", 1], ["aa"]], [["b", 5], ["a", 5]]]},
               {"t": "u", "ix": "iz", "cuts": [[["bn"], ["an"]]]},
-              {"t": "u", "ix": "PRIMARY", "cuts": [[["b", 2], ["a", 2]]]}]
+              {"t": "u", "ix": "PRIMARY", "cuts": [[["b", 2], ["a", 2]]]},
+              {"t": "w", "ix": "PRIMARY", "cuts": [[["b", 0], ["a", 0]], [["b", 9223372036854775807], ["a", 9223372036854775807]], [["b", 1], ["a", 1]]]},
+              {"t": "w", "ix": "PRIMARY", "cuts": [[["b", 0], ["a", 0]], [["b", 0], ["a", 0]], [["b", 32767], ["a", 32767]]]},
+              {"t": "w", "ix": "PRIMARY", "cuts": [[["b", 0], ["a", 0]], [["b", 9223372036854775807], ["a", 9223372036854775807]]]},
+              {"t": "w", "ix": "PRIMARY", "cuts": [[["b", 0], ["a", 1]], [["a", 0], ["aa"]], [["bn"], ["b", 1]]]},
+              {"t": "w", "ix": "iv", "cuts": [[["b", 2], ["a", 2]], [["b", 9223372036854775807], ["a", 9223372036854775807]]]},
+              {"t": "w", "ix": "iv", "cuts": [[["bn"], ["an"]]]}]
 
     def j(lt, rt, lc, rc, hint, left, snap=False):
         lcols, rcols = TABLES[lt][1], TABLES[rt][1]
@@ -490,7 +523,7 @@ def cq_bools(l):
 
 
 def cq_tables(tb):
-    return cq_list(cq_rows(tb[n]) for n in ("t", "u", "k"))
+    return cq_list(cq_rows(tb.get(n, [])) for n in ("t", "u", "k", "w"))
 
 
 def cq_bound(b):
@@ -569,8 +602,10 @@ def coq_case(case, out):
         pos, _ = INDEXES[(rc["t"], rc["ix"])]
         ro = o["ranges"][i] if ok else None
         nullable = ro["nullable"] if ro and len(ro["nullable"]) == len(pos) else [True] * len(pos)
-        ranges.append("{| rc_tbl := %d%%nat; rc_cols := %s; rc_nullable := %s; rc_rs := %s |}" % (
-            TABLES[rc["t"]][0], cq_nats(pos), cq_bools(nullable), cq_list("(%s, %s)" % (cq_cut(c[0]), cq_cut(c[1])) for c in rc["cuts"])))
+        bits = ro["bits"] if ro and len(ro.get("bits") or []) == len(pos) else [32] * len(pos)
+        encs = cq_list("(%s, %s)" % (cq_z(-(1 << (b - 1))), cq_z((1 << (b - 1)) - 1)) for b in bits)
+        ranges.append("{| rc_tbl := %d%%nat; rc_cols := %s; rc_nullable := %s; rc_encs := %s; rc_rs := %s |}" % (
+            TABLES[rc["t"]][0], cq_nats(pos), cq_bools(nullable), encs, cq_list("(%s, %s)" % (cq_cut(c[0]), cq_cut(c[1])) for c in rc["cuts"])))
         if not ro or ro["err"]:
             robs.append(BAD_R)
         else:
@@ -618,6 +653,14 @@ def classify(case, out):
                 t.add("range-visits-proper-subset")
         if len(rc["cuts"]) == 2:
             t.add("range-2col")
+        if len(rc["cuts"]) == 3:
+            t.add("range-3col")
+        if rc["t"] == "w":
+            t.add("range-mixed-widths")
+            if len(rc["cuts"]) < INDEXES[(rc["t"], rc["ix"])][1]:
+                t.add("range-prefix-of-composite")
+            if any(f["eq"] and f["lo"]["v"] in (I64[0], I16[0]) for f in ro["fields"]):
+                t.add("range-int64-or-int16-max")
     for q, qo in zip(case["qs"], o["queries"]):
         if qo["err"]:
             t.add("q-error")
@@ -691,8 +734,8 @@ def shrink_candidates(case):
         for i in range(len(case["ranges"])):
             yield rebuild(case, ranges=case["ranges"][:i] + case["ranges"][i + 1:])
     if not case["later"]:
-        for n in ("t", "u", "k"):
-            for i in range(len(case["tables"][n])):
+        for n in ("t", "u", "k", "w"):
+            for i in range(len(case["tables"].get(n, []))):
                 tb = copy.deepcopy(case["tables"])
                 del tb[n][i]
                 yield rebuild(case, tables=tb, cur=copy.deepcopy(tb))
